@@ -25,8 +25,9 @@ func eachInstr(fn *ssa.Function, f func(ssa.Instruction)) {
 }
 
 // calleeName gives a stable, type-resolved name for a call:
-//   "math/bits.OnesCount64", "(*bytes.Buffer).Grow", "invoke io.Writer.Write",
-//   "builtin len", "closure f$1", "dynamic".
+//
+//	"math/bits.OnesCount64", "(*bytes.Buffer).Grow", "invoke io.Writer.Write",
+//	"builtin len", "closure f$1", "dynamic".
 func calleeName(com *ssa.CallCommon) string {
 	if com.IsInvoke() {
 		recv := com.Value.Type()
@@ -134,12 +135,12 @@ func log2(u uint64) (int, bool) {
 
 // FA caches value numbers, memory epochs and dominating conditions of one function.
 type FA struct {
-	W      *World
-	Fn     *ssa.Function
-	vnMemo map[ssa.Value]string
-	epoch  map[*ssa.UnOp]string
-	conds  map[*ssa.BasicBlock][]Cond
-	reach  map[*ssa.BasicBlock]map[*ssa.BasicBlock]bool
+	W       *World
+	Fn      *ssa.Function
+	vnMemo  map[ssa.Value]string
+	epoch   map[*ssa.UnOp]string
+	conds   map[*ssa.BasicBlock][]Cond
+	reach   map[*ssa.BasicBlock]map[*ssa.BasicBlock]bool
 	atomVal map[string]ssa.Value
 }
 
@@ -821,14 +822,14 @@ func (a *FA) AtomValue(atom string) ssa.Value { return a.atomVal[atom] }
 
 // LoopIV describes "idx runs 0,1,2,... while idx < N".
 type LoopIV struct {
-	Phi   *ssa.Phi
-	First int64 // value of idx in the first iteration (valid if FirstConst)
-	FirstLin Lin // same, as a linear form (parameters allowed)
+	Phi        *ssa.Phi
+	First      int64 // value of idx in the first iteration (valid if FirstConst)
+	FirstLin   Lin   // same, as a linear form (parameters allowed)
 	FirstConst bool
-	Step  int64
-	N     Lin   // exclusive upper bound established by the dominating guard (valid if HasN)
-	HasN  bool
-	Facts []string
+	Step       int64
+	N          Lin // exclusive upper bound established by the dominating guard (valid if HasN)
+	HasN       bool
+	Facts      []string
 }
 
 // InductionOf analyses an index value used in block use: idx = phi + k with
